@@ -232,6 +232,47 @@ pub mod rt {
         o
     }
 
+    /// Miri variant: the script is embedded (no stdin under isolation); `shard`/`nshards` come from argv so
+    /// that several interpreters can share one build. Prints "<index> <result>" per executed line.
+    pub fn main_embedded(table: &[Dispatch], script: &[&str]) {
+        let args: Vec<String> = std::env::args().collect();
+        let shard: usize = args.get(1).and_then(|s| s.parse().ok()).unwrap_or(0);
+        let nshards: usize = args.get(2).and_then(|s| s.parse().ok()).unwrap_or(1);
+        install_hook();
+        for (i, line) in script.iter().enumerate() {
+            let parts: Vec<&str> = line.split(' ').filter(|s| !s.is_empty()).collect();
+            let m: usize = parts[0].parse().expect("module index");
+            if m % nshards != shard {
+                continue;
+            }
+            println!("@{}", i);
+            let f = table[m];
+            let r = catch_unwind(AssertUnwindSafe(|| f(parts[1], &parts[2..])));
+            let text = match r {
+                Ok(s) => s,
+                Err(_) => format!("PANIC {}", hex(&LAST_PANIC.with(|p| p.borrow().clone()))),
+            };
+            println!("{} {}", i, text);
+        }
+        println!("DONE {}", shard);
+    }
+
+    fn install_hook() {
+        std::panic::set_hook(Box::new(|info| {
+            let msg = if let Some(s) = info.payload().downcast_ref::<&str>() {
+                s.to_string()
+            } else if let Some(s) = info.payload().downcast_ref::<String>() {
+                s.clone()
+            } else {
+                "<non-string panic>".to_string()
+            };
+            let loc = info.location().map(|l| format!("{}:{}", l.file(), l.line())).unwrap_or_default();
+            let full = format!("{} @ {}", msg, loc);
+            eprintln!("PROBE-PANIC: {}", full);
+            LAST_PANIC.with(|p| *p.borrow_mut() = full);
+        }));
+    }
+
     pub fn main_loop(table: &[Dispatch]) {
         std::panic::set_hook(Box::new(|info| {
             let msg = if let Some(s) = info.payload().downcast_ref::<&str>() {
